@@ -19,7 +19,7 @@ import (
 
 // PeerSpec: peer 0 is always honest and connected from the start.
 type PeerSpec struct {
-	// Kind: honest | omit | inconsistent | unserved | extra | ckptonly | silent
+	// Kind: honest | omit | empty | inconsistent | unserved | extra | ckptonly | silent
 	Kind string `json:"kind"`
 	// From: first height whose filter (or checkpoint) is falsified.
 	From int `json:"from"`
@@ -55,7 +55,7 @@ type Case struct {
 	Events   []Event    `json:"events"`
 }
 
-var provable = map[string]bool{"omit": true, "inconsistent": true, "unserved": true}
+var provable = map[string]bool{"omit": true, "empty": true, "inconsistent": true, "unserved": true}
 
 func genCase(big bool) func(t *rapid.T) Case {
 	return func(t *rapid.T) Case {
@@ -104,7 +104,7 @@ func genCase(big bool) func(t *rapid.T) Case {
 			fp = 0
 		}
 		for i := 1; i < np; i++ {
-			k := kit.Pick(t, "pkind", []string{"honest", "omit", "omit", "inconsistent", "inconsistent", "unserved", "unserved", "extra", "ckptonly", "silent"})
+			k := kit.Pick(t, "pkind", []string{"honest", "omit", "omit", "empty", "empty", "inconsistent", "inconsistent", "unserved", "unserved", "extra", "ckptonly", "silent"})
 			from := rapid.IntRange(fp+1, base+fut).Draw(t, "from")
 			if kit.Uni(t, "fromnear", 2) == 0 {
 				// near the first heights that will be fetched
@@ -298,7 +298,7 @@ func runCase(t *testing.T, c Case) kit.Verdict {
 				}
 			}
 			switch ps.Kind {
-			case "omit", "inconsistent", "unserved", "extra":
+			case "omit", "empty", "inconsistent", "unserved", "extra":
 				p.LieCFFrom, p.LieCFKind = int32(ps.From), ps.Kind
 			case "ckptonly":
 				p.LieCkptFrom = int32(ps.From)
